@@ -310,14 +310,14 @@ func init() {
 
 	planTable["C38"] = func(q bool) *Plan {
 		p := &Plan{Level: "model_checking", Engine: "E-sched",
-			Text:      "Real DB with 2 compactors, a 16 KiB memtable, one memtable slot and an L0 stall limit of 2 (so writers stall on the memtable queue and on L0, and only badger's own compactors can release them): 8 three-thread scenarios (commits x commits x Close; WriteBatch.Flush x iteration with ValueCopy x RunValueLogGC; commits x DropAll; commits x DropPrefix x reader; Flatten x commits; Subscribe+cancel x commits x Close; two Close calls; Sync x commits) are run under every interleaving of their API calls and the internal write/flush/compaction points up to the preemption bound; every call must return within 120 s of VIRTUAL time (2400 compactor ticks), otherwise the goroutine dump is the counterexample; a panic or fatal exit is a violation.",
+			Text:      "Real DB with 2 compactors, a 16 KiB memtable, one memtable slot and an L0 stall limit of 2 (so writers stall on the memtable queue and on L0, and only badger's own compactors can release them): 8 three-thread scenarios (commits x commits x Close; WriteBatch.Flush x iteration with ValueCopy x RunValueLogGC; commits x DropAll; commits x DropPrefix x reader; Flatten x commits; Subscribe+cancel x commits x Close; two Close calls; Sync x commits; and a commit x StreamWriter PrepareIncremental/Prepare + Write + Flush with a point between the commit's write and its timestamp being marked done) are run under every interleaving of their API calls and the internal write/flush/compaction points up to the preemption bound; every call must return within 120 s of VIRTUAL time (2400 compactor ticks), otherwise the goroutine dump is the counterexample; a panic or fatal exit is a violation.",
 			Note:      "Liveness is 'within the virtual horizon'; a schedule that only fails to finish in real time is inconclusive, not a violation.",
 			Technique: "stateless model checking with a virtual-time horizon (controlled scheduler, preemption-bounded DFS)",
 			Rule:      "8 scenarios x schedules up to the bound; outcome = returned / deadlock"}
 		if q {
-			p.Stages = []Stage{sched("c38", 0, 8, 40, prm("cases", 8)), sched("c38", 1, 8, 45, prm("cases", 8))}
+			p.Stages = []Stage{sched("c38", 0, 8, 40, prm("cases", 8)), sched("c38sw", 2, 2, 30, prm("cases", 2)), sched("c38", 1, 8, 45, prm("cases", 8))}
 		} else {
-			p.Stages = []Stage{sched("c38", 1, 8, 600, prm("cases", 8)), sched("c38", 2, 8, 1800, prm("cases", 8))}
+			p.Stages = []Stage{sched("c38", 1, 8, 600, prm("cases", 8)), sched("c38sw", 3, 2, 300, prm("cases", 2)), sched("c38", 2, 8, 1800, prm("cases", 8))}
 		}
 		return p
 	}
@@ -354,6 +354,13 @@ func init() {
 		}
 		return p
 	}
+
+	planTable["C26"] = enumPlan("exploration",
+		"Stream contents: every non-empty subset of 5 user keys {a,ab,b,c,d} x 3 version patterns (two versions each / newest only / mixed), values at threshold-1/threshold/threshold+1, delete markers, user meta, expiry; split into one or two streams with disjoint key ranges at every key boundary; x {Prepare on a non-empty DB, PrepareIncremental on an empty DB, over data in the last level only, over L0 + last level (the Flatten branch)}; each stream cut into Write batches by 3 patterns (one batch / singletons / two halves that may separate a key's versions), the two streams' batches interleaved 4 ways (including both streams in one buffer), done markers absent / with the last batch / in a separate buffer, plain / encrypted / snappy / in-memory (quick: 2 rotating combinations of these four per (content, split, mode); thorough: all 432); table size 300 bytes so a stream spans several tables. After Flush: the dump of ALL versions (value, user meta, expiry, delete markers) equals exactly the streamed entries plus, in incremental mode, the pre-existing ones; levels are structurally valid and match the MANIFEST and the files; the same after close and re-open; the next commits get timestamps above every streamed version and are read back.",
+		"Drives StreamWriter.Prepare/PrepareIncremental/Write/Flush on the real DB.",
+		"nested enumeration; distinct = distinct (content, split, mode, batching, interleaving, done markers, configuration)",
+		[]Stage{en("c26sw", 16, 90, nil)},
+		[]Stage{en("c26sw", 16, 1500, prm("full", true))})
 
 	planTable["C27"] = enumPlan("exploration",
 		"All operation sequences of length <= 3 (quick) / 4 (thorough) over {Set, Delete} x {x,y} for NewWriteBatch (normal DB) and NewWriteBatchAt(6), and over {SetEntryAt, DeleteAt} x {x,y} x {ts 5,7} for NewManagedWriteBatch, with the batch's transaction limit set so that it splits after every 1, 2 or 3 entries (and not at all); after Flush every key is read (managed: at every timestamp 4..8) and must show the LAST call for that key (and version).",
